@@ -13,6 +13,7 @@ from . import core
 # property id -> (module, level)
 CHECKS = {
     "C03": ("c03", "model_checking"),
+    "C04": ("c04", "other"),
     "C06": ("c06", "model_checking"),
     "C01": ("c01", "model_checking"),
     "C02": ("c02", "model_checking"),
